@@ -1,13 +1,10 @@
 ----------------------------- MODULE C02_MCMux -----------------------------
 EXTENDS C02_Mux, Json
-ChanKey(c) == ToString(c[1]) \o c[2]
-St == << opened, [c \in Chans |-> <<sent[c], Len(rbuf[c]), wfin[c], rfin[c], Len(delivered[c]), eof[c]>>],
-         [d \in Dirs |-> [i \in 1..Len(wire[d]) |-> <<wire[d][i].s, Len(wire[d][i].pt), wire[d][i].fin>>]] >>
 StJ == << opened, [s \in Streams |-> [d \in Dirs |-> <<sent[<<s, d>>], Len(rbuf[<<s, d>>]), wfin[<<s, d>>],
                                                       rfin[<<s, d>>], Len(delivered[<<s, d>>]), eof[<<s, d>>]>>]],
           [d \in Dirs |-> [i \in 1..Len(wire[d]) |-> <<wire[d][i].s, Len(wire[d][i].pt), wire[d][i].fin>>]] >>
-EmitEdge == op'.name = "pump" \/ PrintT(<<"VFEDGE", ToJson([s |-> StJ, op |-> op', t |-> StJ'])>>)
-EmitAll == PrintT(<<"VFEDGE", ToJson([s |-> StJ, op |-> op', t |-> StJ'])>>)
-Conf == [streams |-> Streams, maxsent |-> MaxSent, maxmsg |-> MaxMsg, bufs |-> Bufs]
+\* pump transitions are printed too (the harness skips them: the real receive loop runs by itself)
+EmitEdge == PrintT(<<"VFEDGE", ToJson([s |-> StJ, op |-> op', t |-> StJ'])>>)
+Conf == [streams |-> Streams, maxsent |-> MaxSent, maxmsg |-> MaxMsg, maxtotal |-> MaxTotal, maxclose |-> MaxClose, bufs |-> Bufs]
 MCInit == Init /\ PrintT(<<"VFINIT", ToJson(StJ)>>) /\ PrintT(<<"VFCONF", ToJson(Conf)>>)
 =============================================================================
